@@ -211,19 +211,24 @@ impl GraphEngine {
 
         let mut catalog = self.index_catalog.lock().unwrap();
         let mut pager = self.pager.write().unwrap();
-        let def = catalog.get_or_create(&mut pager, &name)?;
-        if !existing.is_empty() {
-            let mut tree = crate::index::btree::BTree::load(def.root);
-            for (encoded, iid) in existing {
-                let mut key = Vec::with_capacity(4 + encoded.len());
-                key.extend_from_slice(&def.id.to_be_bytes());
-                key.extend_from_slice(&encoded);
-                tree.insert(&mut pager, &key, iid as u64)?;
-            }
-            if let Some(entry) = catalog.entries.get_mut(&name) {
-                entry.root = tree.root();
-            }
+        // Build the complete tree first and register it afterwards: an index that is in the
+        // catalog is trusted by look-ups, so a crash must never leave a half-filled one there.
+        let id = pager.allocate_index_id()?;
+        let mut tree = crate::index::btree::BTree::create(&mut pager)?;
+        for (encoded, iid) in existing {
+            let mut key = Vec::with_capacity(4 + encoded.len());
+            key.extend_from_slice(&id.to_be_bytes());
+            key.extend_from_slice(&encoded);
+            tree.insert(&mut pager, &key, iid as u64)?;
         }
+        pager.sync()?;
+        catalog.entries.insert(
+            name,
+            crate::index::catalog::IndexDef {
+                id,
+                root: tree.root(),
+            },
+        );
         catalog.flush(&mut pager)?;
         Ok(())
     }
@@ -1432,31 +1437,47 @@ impl<'a> WriteTxn<'a> {
             }
 
             // Apply Index Updates
-            if !index_ops.is_empty() {
+            //
+            // Index pages are updated in place and are not replayed from the log, so the two
+            // halves are ordered around the commit record such that a crash can only leave
+            // *extra* entries behind (look-ups verify every candidate against the snapshot):
+            // insertions become durable before the commit record, removals follow it.
+            let apply_index_ops = |ops: &[(IndexOp, InternalNodeId)], insert_phase: bool| -> Result<()> {
                 let mut catalog = self.engine.index_catalog.lock().unwrap();
                 let mut pager = self.engine.pager.write().unwrap();
-
-                for (op, node_id) in index_ops {
+                let mut touched = false;
+                for (op, node_id) in ops {
                     let (name, value, insert) = match op {
                         IndexOp::Insert(name, value) => (name, value, true),
                         IndexOp::Remove(name, value) => (name, value, false),
                     };
-                    if let Some(re) = catalog.entries.get_mut(&name) {
+                    if insert != insert_phase {
+                        continue;
+                    }
+                    if let Some(re) = catalog.entries.get_mut(name) {
                         let mut tree = crate::index::btree::BTree::load(re.root);
 
                         let mut key = Vec::new();
                         key.extend_from_slice(&re.id.to_be_bytes());
-                        key.extend_from_slice(&encode_ordered_value(&value));
+                        key.extend_from_slice(&encode_ordered_value(value));
 
                         if insert {
-                            let _ = tree.insert(&mut pager, &key, node_id as u64);
+                            let _ = tree.insert(&mut pager, &key, *node_id as u64);
                         } else {
-                            let _ = tree.delete(&mut pager, &key, node_id as u64);
+                            let _ = tree.delete(&mut pager, &key, *node_id as u64);
                         }
                         re.root = tree.root();
+                        touched = true;
                     }
                 }
-                catalog.flush(&mut pager)?;
+                if touched {
+                    catalog.flush(&mut pager)?;
+                    pager.sync()?;
+                }
+                Ok(())
+            };
+            if !index_ops.is_empty() {
+                apply_index_ops(&index_ops, true)?;
             }
 
             // Flush WAL
@@ -1464,6 +1485,11 @@ impl<'a> WriteTxn<'a> {
             wal.append(&WalRecord::CommitTx { txid: self.txid })?;
             wal.fsync()?;
             wal.disarm();
+
+            // The transaction is durable; stale entries are harmless if this fails.
+            if !index_ops.is_empty() {
+                let _ = apply_index_ops(&index_ops, false);
+            }
         }
 
         #[cfg(luqing_studio_nervusdb_verif)]
